@@ -17,6 +17,8 @@ oracle_c01 — line protocol (one result line per input line; the first line of 
   `who`                                       → `in=[…] parked=[…]`           all callers, sorted by id
   `entries`                                   → number of entries the container keeps
   `state <key>`                               → `cur=<n> waiters=<n> present=<0|1>`   (T-observable, through a hook)
+  `obj <t>`                                   → `cur=<n> waiters=<n> inmap=<0|1>`     (T) the `*Weighted` caller `t` holds,
+                                                 whether or not the map still refers to it (`t` must be inside)
 Keys: `i<int64>` (canonical decimal) or `s<text>`. Ill-formed or not-enabled lines → `bad-op`.
 The delete guard is the one regenerated from the source (`Nv.Gen.C01.cfg`).
 -/
@@ -135,6 +137,24 @@ def stepLine (o : OSt) (line : String) : OSt × String :=
         match step cfg o.rw o.st (.release t k) with
         | none => (o, "bad-op")
         | some s' => ({ o with st := s' }, "ok woke=" ++ showTids (woke o k o.st s'))
+  | ["obj", t] =>
+    if !o.started then (o, "bad-op") else
+    match natCanon t 9 with
+    | none => (o, "bad-op")
+    | some t =>
+      match callOf o t with
+      | none => (o, "bad-op")
+      | some (_, k, _) =>
+        if !(o.st k).holds t then (o, "bad-op") else
+        let inLive := match (o.st k).live with
+          | some x => if holdsIn t x then some x else none
+          | none => none
+        match inLive with
+        | some x => (o, s!"cur={x.cur} waiters={x.waiters.length} inmap=1")
+        | none =>
+          match (o.st k).orphans.find? (holdsIn t) with
+          | some x => (o, s!"cur={x.cur} waiters={x.waiters.length} inmap=0")
+          | none => (o, "bad-op")
   | ["cancel", t] =>
     if !o.started then (o, "bad-op") else
     match natCanon t 9 with
